@@ -608,7 +608,9 @@ func (p *BinaryProtocol) ReadMapBegin() (kType, vType Type, size int, err error)
 		err = e
 		return
 	}
-	if size32 < 0 {
+	// every element takes at least one byte: a larger count cannot be satisfied by the rest of the buffer
+	// (and callers allocate by it)
+	if size32 < 0 || int(size32) > len(p.Buf)-p.Read {
 		err = errInvalidDataSize
 		return
 	}
@@ -639,7 +641,9 @@ func (p *BinaryProtocol) ReadListBegin() (elemType Type, size int, err error) {
 		err = e
 		return
 	}
-	if size32 < 0 {
+	// every element takes at least one byte: a larger count cannot be satisfied by the rest of the buffer
+	// (and callers allocate by it)
+	if size32 < 0 || int(size32) > len(p.Buf)-p.Read {
 		err = errInvalidDataSize
 		return
 	}
@@ -671,7 +675,9 @@ func (p *BinaryProtocol) ReadSetBegin() (elemType Type, size int, err error) {
 		err = e
 		return
 	}
-	if size32 < 0 {
+	// every element takes at least one byte: a larger count cannot be satisfied by the rest of the buffer
+	// (and callers allocate by it)
+	if size32 < 0 || int(size32) > len(p.Buf)-p.Read {
 		err = errInvalidDataSize
 		return
 	}
